@@ -75,7 +75,11 @@ class _Canonical(ast.NodeTransformer):
     (d) `t = e; if t:` (or `if not t:`) with `t` used nowhere else -> `if e:`;
     (e) `a, b = x, y` (not a swap) -> `a = x; b = y`;
     (f) `not (a or b)` -> `not a and not b`, `not not a` -> `a` in a test;
-    (g) `if c: ...; return/raise/continue/break  else: REST` -> the `if` without else, followed by REST."""
+    (g) `if c: ...; return/raise/continue/break  else: REST` -> the `if` without else, followed by REST;
+    (h) `if c: return X` followed by a `raise` that ends the block -> `if not c: raise ...` followed by `return X` (the refusal
+        is the guard, the result is the fall-through);
+    (i) `while True:` whose first statement is the guard `if c: raise ... / return X` (no `break` of that loop, no `else`)
+        -> `while not c: REST` followed by the raise / return."""
 
     _OPS = (ast.Add, ast.Sub, ast.Mult, ast.BitOr, ast.BitAnd, ast.FloorDiv)
 
@@ -106,6 +110,18 @@ class _Canonical(ast.NodeTransformer):
                 return ast.copy_location(ast.AugAssign(target=t, op=n.value.op, value=n.value.right), n)
         return n
 
+    @staticmethod
+    def _setlike(c: ast.Compare) -> bool:
+        if not isinstance(c.ops[0], (ast.Lt, ast.LtE, ast.Gt, ast.GtE)):
+            return False
+        for side in [c.left] + list(c.comparators):
+            for x in ast.walk(side):
+                if isinstance(x, (ast.Set, ast.SetComp)) or (isinstance(x, ast.Call) and isinstance(x.func, ast.Name) and x.func.id in ('set', 'frozenset')):
+                    return True
+                if isinstance(x, ast.Call) and isinstance(x.func, ast.Attribute) and x.func.attr in ('keys', 'items', 'union', 'intersection', 'difference'):
+                    return True
+        return False
+
     def _nnf(self, e: ast.expr, boolctx: bool) -> ast.expr:
         """(f) negations are pushed through `and` / `or` (De Morgan; value-preserving: both sides are bools), and a double
         negation is dropped where only the truth value matters."""
@@ -116,6 +132,14 @@ class _Canonical(ast.NodeTransformer):
                 dual = ast.Or() if isinstance(inner.op, ast.And) else ast.And()
                 vals = [ast.copy_location(ast.UnaryOp(op=ast.Not(), operand=v), v) for v in inner.values]
                 return self._nnf(ast.copy_location(ast.BoolOp(op=dual, values=vals), e), boolctx)
+            if isinstance(inner, ast.Compare) and len(inner.ops) == 1 and not self._setlike(inner):
+                # `not a < b` -> `a >= b` etc.: exact for `==`/`!=`/`is`/`in`; for the ordering operators exact on a total order
+                # (numbers, strings, bytes -- everything this code base orders; sets, which are only partially ordered, are
+                # excluded when they can be recognised)
+                flip = {ast.Lt: ast.GtE, ast.LtE: ast.Gt, ast.Gt: ast.LtE, ast.GtE: ast.Lt, ast.Eq: ast.NotEq, ast.NotEq: ast.Eq,
+                        ast.Is: ast.IsNot, ast.IsNot: ast.Is, ast.In: ast.NotIn, ast.NotIn: ast.In}
+                self.rewrites += 1
+                return ast.copy_location(ast.Compare(left=inner.left, ops=[flip[type(inner.ops[0])]()], comparators=inner.comparators), e)
             if isinstance(inner, ast.UnaryOp) and isinstance(inner.op, ast.Not) and boolctx:
                 self.rewrites += 1
                 return self._nnf(inner.operand, True)
@@ -130,9 +154,33 @@ class _Canonical(ast.NodeTransformer):
         self.generic_visit(n)
         return self._nnf(n, False) if isinstance(n.op, ast.Not) else n
 
+    @staticmethod
+    def _breaks(body: List[ast.stmt]) -> bool:
+        todo: List[ast.AST] = list(body)
+        while todo:
+            x = todo.pop()
+            if isinstance(x, ast.Break):
+                return True
+            if isinstance(x, (ast.For, ast.AsyncFor, ast.While)):
+                todo.extend(x.orelse)
+                continue
+            if isinstance(x, (ast.FunctionDef, ast.AsyncFunctionDef, ast.Lambda, ast.ClassDef)):
+                continue
+            todo.extend(ast.iter_child_nodes(x))
+        return False
+
     def visit_While(self, n: ast.While) -> Any:
         self.generic_visit(n)
         n.test = self._nnf(n.test, True)
+        # (i) `while True: if c: raise E ...` -> `while not c: ...` then `raise E`
+        if (isinstance(n.test, ast.Constant) and n.test.value is True and not n.orelse and n.body and isinstance(n.body[0], ast.If)
+                and not n.body[0].orelse and len(n.body[0].body) == 1 and isinstance(n.body[0].body[0], (ast.Raise, ast.Return))
+                and not self._breaks(n.body)):
+            g = n.body[0]
+            self.rewrites += 1
+            n.test = self._nnf(ast.copy_location(ast.UnaryOp(op=ast.Not(), operand=g.test), g.test), True)
+            n.body = n.body[1:] or [ast.copy_location(ast.Pass(), g)]
+            return [n, g.body[0]]
         return n
 
     def visit_IfExp(self, n: ast.IfExp) -> Any:
@@ -195,6 +243,16 @@ class _Canonical(ast.NodeTransformer):
                             and isinstance(nx.value, ast.Name) and nx.value.id == st.targets[0].id and self._uses):
                         self.rewrites += 1
                         out.append(ast.copy_location(ast.Return(value=st.value), st))
+                        i += 2
+                        continue
+                    # (h) `if c: return X` + final `raise` -> `if not c: raise` + `return X`
+                    if (isinstance(st, ast.If) and not st.orelse and len(st.body) == 1 and isinstance(st.body[0], ast.Return) and isinstance(nx, ast.Raise) and i + 2 == len(v)):
+                        self.rewrites += 1
+                        ret = st.body[0]
+                        st.test = self._nnf(ast.copy_location(ast.UnaryOp(op=ast.Not(), operand=st.test), st.test), True)
+                        st.body = [nx]
+                        out.append(st)
+                        out.append(ret)
                         i += 2
                         continue
                     # (d) `t = e; if t: ...` / `while`-less single use of a condition temp -> `if e: ...`
